@@ -56,6 +56,10 @@ type Person struct {
 	Living  bool // by construction
 	Extra   []*Spec
 	Tracer  string
+	// Sub: extra children for the first node with the given tag among the
+	// events ("BIRT", "DEAT", ...); BareEv: events written without any child.
+	Sub    map[string][]*Spec
+	BareEv map[string]bool
 }
 
 func (p *Person) Ev(tag string) *Ev {
@@ -350,8 +354,17 @@ func (g *FG) PersonSpec(p *Person) *Spec {
 	if p.Sex != "" {
 		s.Kids = append(s.Kids, &Spec{Tag: "SEX", Value: p.Sex})
 	}
+	subDone := map[string]bool{}
 	for _, e := range p.Events {
-		s.Kids = append(s.Kids, evSpec(e))
+		es := evSpec(e)
+		if p.BareEv[e.Tag] {
+			es.Kids = nil
+		}
+		if !subDone[e.Tag] {
+			subDone[e.Tag] = true
+			es.Kids = append(es.Kids, p.Sub[e.Tag]...)
+		}
+		s.Kids = append(s.Kids, es)
 	}
 	for _, u := range p.UIDs {
 		s.Kids = append(s.Kids, &Spec{Tag: "_UID", Value: u})
